@@ -133,9 +133,21 @@ class ExpandedTraceback:
         self.full_traceback = full_traceback
         self.hide_filenames = hide_filenames
         self.show_filenames = show_filenames
-        innermost_frame = traceback.extract_tb(exc_info[2])[-1]
+        frames = traceback.extract_tb(exc_info[2])
+        # Locate the failure in the student's own code: the innermost frame of a
+        # file being shown, since the exception may have been raised further in
+        # (by a library function that the student called) ...
+        shown_frames = [frame for frame in frames if frame[0] in show_filenames]
+        if shown_frames:
+            located_file, located_line = shown_frames[-1][0], shown_frames[-1][1]
+        elif (isinstance(exception, SyntaxError) and exception.lineno is not None
+              and exception.filename in show_filenames):
+            # ... or not at all: a file that does not compile names its own line
+            located_file, located_line = exception.filename, exception.lineno
+        else:
+            located_file, located_line = frames[-1][0], frames[-1][1]
         # Report the line within the whole file, even if only a section of it was executed
-        self.line_number = innermost_frame[1] + line_offsets.get(innermost_frame[0], 0)
+        self.line_number = located_line + line_offsets.get(located_file, 0)
         self.original_code_lines = original_code_lines
         self.student_files = student_files
 
